@@ -285,3 +285,73 @@ func VerifC13Reader() {
 	verifapi.Assert(verifapi.Same(seen, pre) || verifapi.Same(seen, post), "c13.reader-sees-pre-or-post-state")
 	verifapi.Assert(verifapi.Same(read(main), post), "c13.reader-final-state")
 }
+
+// VerifC13Pairs: two acknowledged operations that overlap (two agents being
+// served at once) on the KV model, conflicts and retries included: what is
+// read back afterwards - also by a new driver instance over the same database
+// - equals the result of one of the two serial orders; in particular credit
+// acknowledged while a node is being linked to a wallet is neither lost nor
+// left on a trial balance nobody reads.
+func VerifC13Pairs() {
+	ids := []store.NodeID{store.NodeID(verifapi.NodeID(0)), store.NodeID(verifapi.NodeID(1))}
+	accts := []store.Account{store.Account(verifapi.Wallet(0)), store.Account(verifapi.Wallet(1))}
+	t0 := verifapi.Time("t0")
+	verifapi.SetNow(t0)
+	// node 0: registered, with or without trial credit, unlinked or linked to wallet 0; node 1: registered, unlinked
+	flags := []bool{true, true, verifapi.Bool("credited0"), false}
+	credits := []*big.Int{verifapi.BigInt("credit0"), big.NewInt(0)}
+	links := []int{verifapi.Choose("link0", 2), 0}
+	conc, ab, ba := verifOpen(), verifOpen(), verifOpen()
+	for _, s := range []*badgerStore{conc, ab, ba} {
+		verifC13Setup(s, ids, accts, t0, flags, credits, links, true)
+	}
+	// mutating operations whose acknowledgement promises an effect: peers, credits, links; the first one
+	// acts on node 0 / wallet 0, the second on either node / wallet (unordered pairs: op1 <= op2)
+	k1, k2 := 1+verifapi.Choose("op1", 4), 1+verifapi.Choose("op2", 4)
+	verifapi.Assume(k1 <= k2)
+	id1, id2 := ids[0], ids[verifapi.Choose("id2", 2)]
+	a1, a2 := accts[0], accts[verifapi.Choose("acct2", 2)]
+	m1, m2 := verifapi.BigInt("amount1"), verifapi.BigInt("amount2")
+	op := func(s *badgerStore, which int) error {
+		if which == 1 {
+			return verifC13OpErr(s, k1, ids, id1, a1, m1)
+		}
+		return verifC13OpErr(s, k2, ids, id2, a2, m2)
+	}
+	e1ab, e2ab := op(ab, 1), op(ab, 2)
+	e2ba, e1ba := op(ba, 2), op(ba, 1)
+	done := make(chan int, 2)
+	var e1, e2 error
+	go func() { e1 = op(conc, 1); done <- 1 }()
+	go func() { e2 = op(conc, 2); done <- 2 }()
+	<-done
+	<-done
+	verifapi.Reach("c13.pairs")
+	if e1 != nil || e2 != nil {
+		// a refused operation (conflict reported to the caller, unregistered node) promises nothing:
+		// only runs in which both calls were acknowledged are compared
+		return
+	}
+	if e1ab != nil || e2ab != nil || e2ba != nil || e1ba != nil {
+		return
+	}
+	verifapi.Reach("c13.pairs.both-acknowledged")
+	re := &badgerStore{db: conc.db, nonceExpire: conc.nonceExpire}
+	got := verifObserve(re, ids, accts)
+	verifapi.Assert(verifapi.Same(got, verifObserve(ab, ids, accts)) || verifapi.Same(got, verifObserve(ba, ids, accts)), "c13.pairs.acknowledged-changes-read-back-as-in-a-serial-order")
+}
+
+func verifC13OpErr(s *badgerStore, k int, ids []store.NodeID, id store.NodeID, a store.Account, amount *big.Int) error {
+	switch k {
+	case 1:
+		_, err := s.UpdateNodePeers(id, []string{string(ids[0]), string(ids[1])}, 5)
+		return err
+	case 2:
+		return s.AddNodeBalance(id, amount)
+	case 3:
+		return s.AddAccountBalance(a, amount)
+	case 4:
+		return s.AddAccountNode(a, id)
+	}
+	return nil
+}
